@@ -360,17 +360,28 @@ func init() {
 	register(&Scenario{Prop: "C06", Name: "c06/unencodable-stream-message-then-calls", Quick: []Bound{{0, 0}, {1, 0}}, Thorough: []Bound{{2, 0}}, Body: c06StreamBad, BudgetQ: 15})
 }
 
-// through a Transport: a failing call whose error text looks like a library or I/O error ("EOF",
-// "timeout", "dial failed", ...) is an ordinary server-side error: it fails that call only; a
-// call outstanding on the same pooled connection and later calls are unaffected and the
-// connection stays in use.  (The one text the protocol itself reserves, "The connection is shut
-// down", is excluded: see DESIGN.md, observed behaviour.)
-var c06SentinelTexts = []string{"EOF", "unexpected EOF", "timeout", "dial failed", "io: read/write on closed pipe", "write: broken pipe", "context canceled", "use of closed network connection"}
+// through a Transport: a failing call whose error text looks like a library or I/O error ("The
+// connection is shut down" — a proxying handler passes on what its own downstream call returned —,
+// texts that merely contain it, "EOF", "timeout", "dial failed", ...) is an ordinary server-side
+// error: it fails that call only, with exactly that text; a call outstanding on the same pooled
+// connection and later calls are unaffected and the connection stays in use.  Optionally an earlier
+// request on the connection could not be encoded (which failed that request alone).
+var c06SentinelTexts = []string{"The connection is shut down", "backend 2: The connection is shut down", "The connection is shut down (downstream)", "EOF", "unexpected EOF", "timeout", "dial failed", "io: read/write on closed pipe", "write: broken pipe", "context canceled", "use of closed network connection"}
 
 func c06Transport(x *X) {
 	text := c06SentinelTexts[x.Choose(len(c06SentinelTexts))]
 	form := []int{formCall, formGo, formCallCtx}[x.Choose(3)]
+	preBad := x.Choose(2) == 1 // earlier, a request on this connection could not be encoded (it failed alone)
+	trSrvOpts.codec = rejectBytesCodec
+	defer func() { trSrvOpts.codec = nil }()
 	t := newTrSys(x, "C06", 1, 1)
+	if preBad {
+		t.call("a", formCall)
+		bad := newUcall(0xEE, 0xEE, 20, formCall)
+		if err := t.tr.Call("a", bad.method, &bad.args, &bad.reply); err == nil {
+			x.Fail("C06/error-lost/kind=unencodable-request", "a request the body codec rejects returned no error")
+		}
+	}
 	t.longCall("a")
 	w := t.w["a"]
 	c := newUcall(0x71, fErr, 14, form)
@@ -405,7 +416,7 @@ func c06Transport(x *X) {
 	if d := t.n.dials["a"]; d != 1 {
 		x.Fail("C06/connection-replaced/transport", "a server-side error with the text %q made the Transport replace its healthy connection (%d dials)", text, d)
 	}
-	x.Outcome("text=%q form=%d err=%s", text, form, errStr(err))
+	x.Outcome("text=%q form=%d pre=%v err=%s", text, form, preBad, errStr(err))
 	t.shutdown()
 }
 
